@@ -101,11 +101,13 @@ EstOK(p, n, est) ==
 (***************************************************************************)
 VARIABLES ctr,      \* id -> [p, reg]
           seen,     \* id -> set of items offered (directly or through merges)
-          lastEst   \* id -> [reg, est]: estimates reported so far
+          lastEst,  \* id -> [reg, est]: estimates reported so far
+          snap      \* snapshot id -> [st, seen]: byte forms a caller obtained and KEEPS; a byte form
+                    \* describes the counter at the moment it was taken, whatever the counter does later
 
-vars == <<ctr, seen, lastEst>>
+vars == <<ctr, seen, lastEst, snap>>
 
-Init == ctr = <<>> /\ seen = <<>> /\ lastEst = <<>>
+Init == ctr = <<>> /\ seen = <<>> /\ lastEst = <<>> /\ snap = <<>>
 
 Ids == DOMAIN ctr
 
@@ -113,7 +115,7 @@ New(c, p) ==
   /\ c \notin Ids /\ p \in Precisions
   /\ ctr' = ctr @@ (c :> [p |-> p, reg |-> NoRegs])
   /\ seen' = seen @@ (c :> {})
-  /\ UNCHANGED lastEst
+  /\ UNCHANGED <<lastEst, snap>>
 
 \* what Offer returns: did the register grow
 OfferResult(c, it) == LET ir == IR(ctr[c].p, it) IN ir[2] > RegGet(ctr[c].reg, ir[1])
@@ -123,7 +125,7 @@ Offer(c, it) ==
   /\ LET ir == IR(ctr[c].p, it) IN
        ctr' = [ctr EXCEPT ![c].reg = OfferReg(@, ir[1], ir[2])]
   /\ seen' = [seen EXCEPT ![c] = @ \cup {it}]
-  /\ UNCHANGED lastEst
+  /\ UNCHANGED <<lastEst, snap>>
 
 \* c.Merge(others...) builds a NEW counter d; c and the others keep their state
 Merge(c, others, d) ==
@@ -132,14 +134,14 @@ Merge(c, others, d) ==
   /\ ctr' = ctr @@ (d :> [p |-> ctr[c].p,
                           reg |-> MergeAll([k \in 1..Len(others) |-> ctr[others[k]].reg], ctr[c].reg)])
   /\ seen' = seen @@ (d :> seen[c] \cup UNION {seen[others[k]] : k \in 1..Len(others)})
-  /\ UNCHANGED lastEst
+  /\ UNCHANGED <<lastEst, snap>>
 
 \* c.AddAll(o): in-place merge into c; o keeps its state
 AddAll(c, o) ==
   /\ c \in Ids /\ o \in Ids /\ ctr[c].p = ctr[o].p
   /\ ctr' = [ctr EXCEPT ![c].reg = MergeReg(@, ctr[o].reg)]
   /\ seen' = [seen EXCEPT ![c] = @ \cup seen[o]]
-  /\ UNCHANGED lastEst
+  /\ UNCHANGED <<lastEst, snap>>
 
 \* d = Build(Bytes(c)): a new counter with the same state (RoundTrip below says
 \* that decoding the byte form of a counter yields exactly that counter)
@@ -147,7 +149,20 @@ Build(d, c) ==
   /\ c \in Ids /\ d \notin Ids
   /\ ctr' = ctr @@ (d :> ctr[c])
   /\ seen' = seen @@ (d :> seen[c])
-  /\ UNCHANGED lastEst
+  /\ UNCHANGED <<lastEst, snap>>
+
+\* s = the byte form GetBytes(c) returned, kept by the caller: a value, frozen from now on
+Snap(s, c) ==
+  /\ c \in Ids /\ s \notin DOMAIN snap
+  /\ snap' = snap @@ (s :> [st |-> ctr[c], seen |-> seen[c]])
+  /\ UNCHANGED <<ctr, seen, lastEst>>
+
+\* d = Build(kept byte form s): a new counter in the state the serialised counter had WHEN s was taken
+BuildSnap(d, s) ==
+  /\ s \in DOMAIN snap /\ d \notin Ids
+  /\ ctr' = ctr @@ (d :> snap[s].st)
+  /\ seen' = seen @@ (d :> snap[s].seen)
+  /\ UNCHANGED <<lastEst, snap>>
 
 \* an estimate is a function of the state and within the error bound of the
 \* number of distinct items seen
@@ -158,7 +173,7 @@ Est(c, e) ==
         (d \in Ids /\ ctr[d].p = ctr[c].p /\ lastEst[d].reg = ctr[c].reg) => lastEst[d].est = e
   /\ lastEst' = IF c \in DOMAIN lastEst THEN [lastEst EXCEPT ![c] = [reg |-> ctr[c].reg, est |-> e]]
                 ELSE lastEst @@ (c :> [reg |-> ctr[c].reg, est |-> e])
-  /\ UNCHANGED <<ctr, seen>>
+  /\ UNCHANGED <<ctr, seen, snap>>
 
 \* ---- properties ----------------------------------------------------------
 TypeOK == \A c \in Ids :
@@ -174,6 +189,14 @@ SetOnly == \A c \in Ids : SetOnlyAt(c)
 RoundTripAt(c) == LET d == DecHLL(EncHLL(ctr[c].p, ctr[c].reg)) IN
                     d.p = ctr[c].p /\ d.reg = ctr[c].reg /\ d.nwords = NWords(ctr[c].p)
 RoundTrip == \A c \in Ids : RoundTripAt(c)
+
+\* a kept byte form never changes (no action but Snap touches snap, and Snap only adds), it is the
+\* state of the set seen up to then, and it decodes back
+SnapFrozen == [][\A s \in DOMAIN snap : s \in DOMAIN snap' /\ snap'[s] = snap[s]]_vars
+SnapOKAt(s) == LET st == snap[s].st  d == DecHLL(EncHLL(st.p, st.reg)) IN
+                 /\ st.reg = RegOf({IR(st.p, it) : it \in snap[s].seen})
+                 /\ d.p = st.p /\ d.reg = st.reg
+SnapOK == \A s \in DOMAIN snap : SnapOKAt(s)
 
 \* merge laws on a set R of register files: commutative, idempotent, associative
 MergeLawsOn(R) ==
